@@ -44,7 +44,7 @@ Example C08_hyps_nontrivial :
   /\ wf_cfg ex_cfg = true /\ is_dir (wo_fs ex_w1) [sl] = true
   /\ wf_table (ks_tab (wo_ks ex_w1)) = true /\ cfg_dirs_ok ex_cfg = true
   /\ layer_names_distinct ex_cfg ex_w1 = true /\ sources_agree ex_cfg ex_w1 = true
-  /\ dir_test_agrees ex_cfg ex_w1 = true /\ no_foreign_on_missing_source ex_cfg ex_w1 = true.
+  /\ dir_test_agrees ex_cfg ex_w1 = true /\ no_shown_on_missing_source ex_cfg ex_w1 = true.
 Proof. vm_compute. repeat split; reflexivity. Qed.
 
 (* mkdirs on a derived layer whose overlayfs directories are gone does create them *)
@@ -56,6 +56,16 @@ Example C08_mkdirs_nontrivial :
   /\ wf_cfg ex_cfg = true /\ is_dir (wo_fs ex_w_incomplete) [sl] = true.
 Proof. vm_compute. repeat split; reflexivity. Qed.
 
+(* (round 2) `mount dev` on the same world: Makedirs lifts the layer from incomplete to complete
+   after creating the directories, so the first mount succeeds (it failed with "not yet
+   mountable" before the repair) *)
+Example C08_mount_after_mkdirs :
+  v_res (view_of_model ex_cfg ex_w_incomplete ex_env (CMount (bs "dev")) []) = ROk
+  /\ option_map (map (fun lo => (lo_name lo, lo_state lo)))
+        (v_layers (view_of_model ex_cfg ex_w_incomplete ex_env (CMount (bs "dev")) []))
+     = Some [(bs "base", st_mounted); (bs "dev", st_mounted)].
+Proof. vm_compute. split; reflexivity. Qed.
+
 (* ------------------------------------------------------------------ each hypothesis of (b) is needed *)
 Definition base_fs (importline : bytes) : fsT :=
   dirs (["/"; "/b"; "/b/layers"; "/b/export"; "/host"; "/host/src";
@@ -64,22 +74,22 @@ Definition base_fs (importline : bytes) : fsT :=
       (bs "/b/layers/base/layerconfig", File (importline ++ [nl]))].
 Definition hyps (c : cfgT) (w : wobs) : list bool :=
   [wf_table (ks_tab (wo_ks w)); cfg_dirs_ok c; layer_names_distinct c w; sources_agree c w;
-   dir_test_agrees c w; no_foreign_on_missing_source c w].
+   dir_test_agrees c w; no_shown_on_missing_source c w].
 Definition probe_spec (c : cfgT) (w : wobs) (um : users_map) : bool :=
   C08.step_spec c w (view_of_model c w ex_env CProbe um).
 
-(* 1. a foreign mount (tmpfs) on an import mountpoint whose host source directory is missing:
-      layercake says "inhabited" (missing host directory), the documented state is "error" *)
+(* 1. (round 1: refuted; repaired in round 2) a foreign mount (tmpfs) on an import mountpoint
+      whose host source directory is missing: layercake now reports "error", the documented state *)
 Definition tmpfs_line : kline :=
   MkK (bs "2") (bs "1") (bs "0:30") (bs "/") (bs "/b/layers/base/build/mnt") (bs "rw,relatime") []
       (bs "tmpfs") (bs "tmpfs") [(bs "rw", None)].
 Definition w_foreign : wobs :=
   MkWO (base_fs (bs "import bind /nonexistent /mnt")) (MkKS [root_line; tmpfs_line] 3 31).
-Example C08_refuted_foreign_on_missing_source :
-  hyps ex_cfg w_foreign = [true; true; true; true; true; false]
-  /\ states ex_cfg w_foreign [] = Some [(bs "base", st_inhabited)]
+Example C08_foreign_on_missing_source_is_error :
+  hyps ex_cfg w_foreign = [true; true; true; true; true; true]
+  /\ states ex_cfg w_foreign [] = Some [(bs "base", st_error)]
   /\ C08.doc_states ex_cfg (wo_fs w_foreign) (ks_tab (wo_ks w_foreign)) [] = [(bs "base", st_error)]
-  /\ probe_spec ex_cfg w_foreign [] = false.
+  /\ probe_spec ex_cfg w_foreign [] = true.
 Proof. vm_compute. repeat split; reflexivity. Qed.
 
 (* 2. a relative directory setting with a trailing slash: SameDirectoryOrDescendant("build/x",
@@ -121,18 +131,31 @@ Example C08_refuted_duplicate_names :
   /\ probe_spec ex_cfg w_dup [] = false.
 Proof. vm_compute. repeat split; reflexivity. Qed.
 
-(* 5. GetMountSources does not look at the file system type: a tmpfs whose source string is
-      "/proc" on the mountpoint of `import proc /proc /mnt` counts as the expected mount *)
+(* 5. (round 1: refuted; repaired in round 2) a tmpfs whose source string is "/proc" on the
+      mountpoint of `import proc /proc /mnt`: the type is compared now, the layer is in error *)
 Definition tmpfs_named : kline :=
   MkK (bs "2") (bs "1") (bs "0:30") (bs "/") (bs "/b/layers/base/build/mnt") (bs "rw,relatime") []
       (bs "tmpfs") (bs "/proc") [(bs "rw", None)].
 Definition w_type : wobs :=
   MkWO (base_fs (bs "import proc /proc /mnt") ++ dirs ["/proc"%string]) (MkKS [root_line; tmpfs_named] 3 31).
-Example C08_refuted_sources_disagree :
-  hyps ex_cfg w_type = [true; true; true; false; true; true]
-  /\ states ex_cfg w_type [] = Some [(bs "base", st_mounted)]
+Example C08_right_name_wrong_type_is_error :
+  hyps ex_cfg w_type = [true; true; true; true; true; true]
+  /\ states ex_cfg w_type [] = Some [(bs "base", st_error)]
   /\ C08.doc_states ex_cfg (wo_fs w_type) (ks_tab (wo_ks w_type)) [] = [(bs "base", st_error)]
-  /\ probe_spec ex_cfg w_type [] = false.
+  /\ probe_spec ex_cfg w_type [] = true.
+Proof. vm_compute. repeat split; reflexivity. Qed.
+
+(* 7. (new in round 2) layercake's own bind mount whose host source directory has been removed
+      afterwards (the bind keeps the directory alive in the kernel): every mount over a missing
+      source is now "incorrect", so layercake says "error"; the kernel table still shows the
+      configured source, so the documented state is "inhabited" (missing host directory) *)
+Definition w_gone : wobs :=
+  MkWO (filter (fun e => negb (beq (fst e) (bs "/host/src"))) (wo_fs w_mounted)) (wo_ks w_mounted).
+Example C08_refuted_shown_on_missing_source :
+  hyps ex_cfg w_gone = [true; true; true; true; true; false]
+  /\ states ex_cfg w_gone [] = Some [(bs "base", st_error)]
+  /\ C08.doc_states ex_cfg (wo_fs w_gone) (ks_tab (wo_ks w_gone)) [] = [(bs "base", st_inhabited)]
+  /\ probe_spec ex_cfg w_gone [] = false.
 Proof. vm_compute. repeat split; reflexivity. Qed.
 
 (* ------------------------------------------------------------------ each hypothesis of (a) is needed *)
